@@ -105,14 +105,14 @@ def start_of(cfg):
     box = box_of(cfg)
     if box is not None:
         lo, hi = box
-        x = lo + (np.array(cfg["start_u"]) + 1) / 2 * (hi - lo)
+        x = np.clip(lo + (np.array(cfg["start_u"]) + 1) / 2 * (hi - lo), lo, hi)
     if cfg["cls"] in ("gibbs", "metropolis"):
         for i, kind in enumerate(cfg.get("limits", [])):
             if kind == "nonneg":
                 x[i] = abs(x[i])
             elif kind == "bounded":
                 lo, hi = gibbs_interval(cfg, i)
-                x[i] = lo + (cfg["start_u"][i] + 1) / 2 * (hi - lo)
+                x[i] = min(max(lo + (cfg["start_u"][i] + 1) / 2 * (hi - lo), lo), hi)
     return x
 
 
